@@ -968,4 +968,57 @@ theorem newAndVerify_buildProof (o : FriOptions) {N : Nat} (hfold : o.folding = 
   simp only [hdom]
   exact h3
 
+/-! ### every supplied evaluation is pinned down by the transcript -/
+
+theorem listBeq_eq : ∀ (l1 l2 : List K), listBeq (fieldOps K) l1 l2 = true → l1 = l2
+  | [], [], _ => rfl
+  | [], _ :: _, h => by simp [listBeq] at h
+  | _ :: _, [], h => by simp [listBeq] at h
+  | a :: l1, b :: l2, h => by
+    simp only [listBeq, fo_beq, Bool.and_eq_true, decide_eq_true_eq] at h
+    rw [h.1, listBeq_eq l1 l2 h.2]
+
+theorem checkRemainder_eq (g offset : K) (remainder : List K) :
+    ∀ (ps : List Nat) (es : List K), es.length = ps.length →
+      checkRemainder (fieldOps K) g offset remainder ps es = true →
+      es = ps.map fun p => evalHornerRev (fieldOps K) remainder (offset * g ^ p)
+  | [], [], _, _ => rfl
+  | [], _ :: _, h, _ => by simp at h
+  | _ :: _, [], h, _ => by simp at h
+  | p :: ps, e :: es, hl, h => by
+    simp only [checkRemainder, fo_beq, fo_mul, pow_eq, Bool.and_eq_true, decide_eq_true_eq] at h
+    rw [List.map_cons, ← h.1, ← checkRemainder_eq g offset remainder ps es (by simpa using hl) h.2]
+
+/-- The transcript (positions, opened layers, remainder) determines the query evaluations the
+verifier accepts: two evaluation vectors accepted with the same transcript are EQUAL — entry by
+entry, for every position list (duplicates and positions sharing a folding coset included; no
+distinctness hypothesis). -/
+theorem accepted_evaluations_unique (v : Verifier K) (ev ev' : List K) (positions : List Nat)
+    (openings : List (LayerOpening K)) (remainder : List K) (remOk remOk' : Bool)
+    (h : verify (fieldOps K) v ev positions openings remainder remOk = .ok ())
+    (h' : verify (fieldOps K) v ev' positions openings remainder remOk' = .ok ()) : ev = ev' := by
+  obtain ⟨hl, _, st, hrun, hrem⟩ := verify_ok _ v ev positions openings remainder remOk h
+  obtain ⟨hl', _, st', hrun', hrem'⟩ := verify_ok _ v ev' positions openings remainder remOk' h'
+  generalize v.options.numFriLayers v.domainSize = k at hrun hrun'
+  cases hrun with
+  | done =>
+    cases hrun'
+    obtain ⟨_, _, hc⟩ := verifyRemainder_ok _ v _ remainder remOk hrem
+    obtain ⟨_, _, hc'⟩ := verifyRemainder_ok _ v _ remainder remOk' hrem'
+    rw [checkRemainder_eq v.g v.offset remainder positions ev hl hc,
+      checkRemainder_eq v.g v.offset remainder positions ev' hl' hc']
+  | step hlayer _ =>
+    cases hrun' with
+    | step hlayer' _ =>
+      obtain ⟨qv, hq, hb⟩ := hlayer.queryValues
+      obtain ⟨qv', hq', hb'⟩ := hlayer'.queryValues
+      have hf := hlayer.folded
+      have hf' := hlayer'.folded
+      simp only at hf hf' hq hq' hb hb'
+      rw [hf] at hf'
+      injection hf' with hf'
+      rw [← hf', hq] at hq'
+      injection hq' with hq'
+      rw [listBeq_eq _ _ hb, listBeq_eq _ _ hb', hq']
+
 end Wf.Fri
